@@ -23,4 +23,11 @@ pub trait DirectLDLSolver<T: FloatT>: DirectLDLSolverReqs<T> + HasLinearSolverIn
     fn offset_values(&mut self, index: &[usize], offset: T, signs: &[i8]);
     fn solve(&mut self, kkt: &CscMatrix<T>, x: &mut [T], b: &[T]);
     fn refactor(&mut self, kkt: &CscMatrix<T>) -> bool;
+
+    /// verification hook (C08): `(triuA.nzval, AtoPAPt)` of an engine that keeps its own
+    /// permuted copy of the KKT matrix; `None` otherwise.
+    #[cfg(feature = "verif-hooks")]
+    fn verif_c08_permuted_copy(&self) -> Option<(Vec<T>, Vec<usize>)> {
+        None
+    }
 }
